@@ -73,7 +73,7 @@ namespace Rp2
 
 /-- what a Gain / Loss Detail row says about its fraction: (row, taxable event, acquired lot, amount, k, n of the event label) -/
 def detailOf : RRow → Option (Nat × Int × Option Int × Rat × Nat × Nat)
-  | .taxD _ row ev lot amt _ _ _ _ _ k n _ _ => some (row, ev, lot, amt, k, n)
+  | .taxD _ row ev lot amt _ _ _ _ _ k n _ _ _ => some (row, ev, lot, amt, k, n)
   | _ => none
 
 theorem filterMap_const_none {α β : Type} (l : List α) : l.filterMap (fun _ => (none : Option β)) = [] := by
